@@ -96,6 +96,19 @@ def build_cli(ctx):
     ctx.notes.append("clipool: srsim built from %s (%d bytes)" % (M.REPO, os.path.getsize(binp)))
 
 
+def srvpool_skipped(ctx):
+    """Same bound for the server-mode pool component."""
+    M = sys.modules["__main__"]
+    k = ctx.corr.get("srvpool", {}).get("op_kinds", {})
+    cases, sk = k.get("cases", 0), k.get("reference_failed", 0)
+    ctx.notes.append("srvpool: %d cases (%d battles in the real server pool, %d progress reports read), %d without a "
+                     "reference (skipped)" % (cases, k.get("jobs", 0), k.get("progress_reports", 0), sk))
+    if cases == 0 or sk * 5 > cases:
+        raise M.Violation("search", "%d of %d generated server-mode runs have no reference: a job run alone returns an "
+                          "error or panics, the real worker pool cannot be compared" % (sk, cases),
+                          "more than 20% of the generated configurations fail when their jobs are run alone", True)
+
+
 def clipool_skipped(ctx):
     """A case whose reference (every job alone, in the harness process) already fails has nothing to
     compare the pool with; if there are many of them the clipool search is void."""
@@ -113,7 +126,7 @@ def clipool_skipped(ctx):
 
 CONFIG = {
     "id": "C15",
-    "coq_targets": ["Props/C15.v", "Model/RunsCheck.v", "Model/CliPoolCheck.v"],
+    "coq_targets": ["Props/C15.v", "Model/RunsCheck.v", "Model/CliPoolCheck.v", "Model/SrvPoolCheck.v"],
     "prop_files": ["Props/C15.v"],
     # Gen/Globals.v: package-level variables, writes to them, Register call sites (go2coq Globals)
     "gen": ["Globals"],
@@ -134,9 +147,17 @@ CONFIG = {
         "mismatch_is_violation": True,
         # every case = 2 child processes x 8-24 battles + the reference (about 0.2 s)
         "n_quick": 12, "n_thorough": 200, "shard": 6,
+    }, {
+        # the REAL worker pool and sample endpoint of the HTTP server mode (pkg/servermode), in process
+        "name": "srvpool", "modules": ["Base.GlobalTypes", "Model.RunSpec", "Model.CliPoolCheck", "Model.SrvPoolCheck"],
+        "check": "check_case", "monitor": "monitor_case", "model_out": "model_out",
+        "case_type": "case",
+        "ops_path": None,
+        "mismatch_is_violation": True,
+        "n_quick": 12, "n_thorough": 200, "shard": 6,
     }],
     "pre": [build_cli, race_check],
-    "post": [skipped_share, clipool_skipped],
+    "post": [skipped_share, clipool_skipped, srvpool_skipped],
     "rule": "a case is a list of 1-3 runs (teams of 1-3 registered characters with generated builds, 1-5 dummy "
             "enemies, generated gcs script, seed; content.go/contentgen.go) and a job order in which every run occurs "
             "at least once and 1-3 extra jobs repeat runs; every run is executed alone in two fresh child processes, "
@@ -156,7 +177,17 @@ CONFIG = {
             "status 0 and, from result.gz, the seed echo, the iteration count, min / max / mean / SD of total damage "
             "dealt, taken and AV, min / max / mean / SD / quartiles / histogram counts of damage per cycle and of every "
             "element of the two per-cycle series and the series' lengths -- bit-exactly, except mean and SD up to 1e-9 "
-            "relative to the magnitude of the data (arrival order; C19)",
+            "relative to the magnitude of the data (arrival order; C19). "
+            "srvpool: the same run descriptions, 8-24 iterations, 1-8 workers, flush interval 0-6, a "
+            "settings.iterations in the configuration that is absent / equal / smaller / larger than the requested "
+            "count, through the REAL HTTP server mode in the harness process (servermode.New(...).Router.ServeHTTP: "
+            "POST /run, polling GET /results, POST /sample before and after, half the cases with a failing sample "
+            "request - unknown light cone - first): the process-wide math/rand source the pool draws its job seeds "
+            "from is seeded by the harness (rand.Seed, checked to be honoured on every case), so the reference is "
+            "every job run alone with those seeds; compared: the final report statistic by statistic as for clipool, "
+            "every progress report (count never decreases, never exceeds the request, equals the sum of the "
+            "damage-per-cycle histogram), the final count, and the sample endpoint's log against the log of that "
+            "run alone written through the same GzipLogger type",
     "trusted": ["the Go memory model is not modelled: interleaving_invariance is about interleavings of atomic steps; "
                 "data races are searched for with the Go race detector on the real worker-pool shape, not proved absent",
                 "go2coq Globals (go/parser + go/types, own over-approximate call graph: every mention of a function is "
@@ -181,9 +212,14 @@ CONFIG = {
                 "InitializeAggregators / Add / Flush) with the seed rule READ from cmd/srsim/execute.go -- a change of "
                 "that rule in the source makes the check fail rather than follow it; per-job results are not visible "
                 "from outside the binary, only the aggregated statistics are compared (a defect that changes single "
-                "jobs but leaves every compared statistic unchanged is not seen); NOT covered: the HTTP server pool of "
-                "pkg/servermode (it draws its job seeds from the process-wide, randomly seeded math/rand source and its debug seed from crypto/rand: its results are not reproducible from outside) and the "
-                "wasm entry point"],
+                "jobs but leaves every compared statistic unchanged is not seen); NOT covered by clipool: the HTTP server pool of "
+                "pkg/servermode (component srvpool) and the wasm entry point",
+                "srvpool: the server pool draws its job seeds from the process-wide math/rand source; the harness seeds "
+                "that source (rand.Seed with //go:debug randseednop=0, verified at run time) and assumes nothing else in "
+                "the harness process draws from it while a case runs; the debug seed comes from crypto/rand and is only "
+                "checked to be present; progress reports are read while the pool writes them (the server itself does "
+                "that): an unreadable progress report is skipped, the final one must be readable; cancel, timeout and "
+                "the validate endpoint are not exercised"],
     "assumptions": ["a run's loggers are not shared with a concurrently executing run by the caller (the finding is "
                     "that the engine shares them itself)"],
     "manifest": {
@@ -197,7 +233,7 @@ CONFIG = {
                       "full event log compared), and the real worker pool under the Go race detector; and the REAL worker pool of the command-line program "
                       "(cmd/srsim/execute.go), in the srsim binary built from the tree under test: its aggregated "
                       "statistics for 8-24 iterations, with 1 and with 1-8 workers, against every job run alone with a "
-                      "fresh evaluator (not covered: the HTTP server pool of pkg/servermode, whose seeds are random). The shared "
+                      "fresh evaluator ; and the REAL worker pool and sample endpoint of the HTTP server mode (pkg/servermode) in process, with the process-wide random source seeded by the harness. The shared "
                       "logger list is a recorded finding (refuted + partial theorems).",
         "level_note": "Coq kernel (no axioms); go2coq site table with documented over-approximate call graph; Go race "
                       "detector; the Go memory model itself is outside the model.",
